@@ -7,7 +7,8 @@ ID = 'C06'
 LEVEL = 'exploration'
 RULE = (
     'Generated 2-3 bus scenarios where each bus is first used either by an actor or from inside a handler of another '
-    'bus, long handlers on one bus while events are queued on another, serial and parallel buses, cold and warm. '
+    'bus, long handlers on one bus while events are queued on another, raising handlers (a failing parallel sibling must '
+    'not end the event early), serial and parallel buses, cold and warm. '
     'Oracle (interval analysis over enter/exit/await records): whenever a handler starts, every other running handler '
     'is suspended in an await, or is on a parallel bus with a sibling of the same event suspended in an await, or is a '
     'handler of the same event on the same parallel bus. Non-trivial = some handler with a positive duration was '
@@ -15,7 +16,7 @@ RULE = (
 )
 ASSUMPTIONS = ['virtual time', 'no timeouts (cancelled handlers are not generated here)']
 
-P = Profile(min_buses=2, max_buses=3, par=0.25, actor_ops=['disp', 'disp', 'burst', 'dispany', 'sleep', 'await', 'yield'], maxdepth=[2, 3], wild=0.15, fwd=0.25, warm=[False, False, True], modes=['await', 'later', 'ff', 'ff'], durs=[0.05, 0.1, 0.11, 0.25, 0.5, 1.0])
+P = Profile(min_buses=2, max_buses=3, par=0.3, raises=0.2, raise_kinds=['VE', 'custom', 'ITO'], actor_ops=['disp', 'disp', 'burst', 'dispany', 'sleep', 'await', 'yield'], maxdepth=[2, 3], wild=0.15, fwd=0.25, warm=[False, False, True], modes=['await', 'later', 'ff', 'ff'], durs=[0.05, 0.1, 0.11, 0.25, 0.5, 1.0])
 
 
 def budget(tier):
